@@ -176,6 +176,12 @@ func bfs(c *runner.Ctx, init dirState, desc string) {
 				return
 			}
 			nx := readDir(dir)
+			for n := range nx {
+				if _, ok := st[n]; !ok {
+					fail("file-created", map[string]interface{}{"transition": tr.name, "file": n})
+					return
+				}
+			}
 			for n, before := range st {
 				after, ok := nx[n]
 				if !ok {
@@ -330,6 +336,18 @@ func run(c *runner.Ctx) {
 			bfs(c, dirState{"a.pb.go": a.src, "b.pb.go": b.src, "c.txt": nonGo}, "a="+a.desc+" b="+b.desc+" c.txt=non-Go text")
 		}
 	}
+	// directories that an interrupted earlier run (or an editor) left behind: stale siblings next to the .go files.
+	// They are not .go files: no transition may touch them, and the .go files must end exactly as without them.
+	c.Space("cli-directory-graphs/stale-siblings")
+	for i, a := range fileMenu {
+		if !c.Take() {
+			continue
+		}
+		b := fileMenu[(i+3)%len(fileMenu)]
+		stale := a.src + "\n// stale copy left by an interrupted run\ntype Stale struct {\n\tOld string `json:\"old\"` // @tag valid:\"required\"\n}\n"
+		bfs(c, dirState{"a.pb.go": a.src, "b.pb.go": b.src, "c.txt": nonGo, "a.pb.go.tmp": stale, "b.pb.go.bak": stale, "a.pb.go~": stale, ".a.pb.go.swp": stale},
+			"a="+a.desc+" b="+b.desc+" + stale siblings a.pb.go.tmp, b.pb.go.bak, a.pb.go~, .a.pb.go.swp")
+	}
 }
 
 func pre(tier string) ([]string, error) {
@@ -349,7 +367,7 @@ func main() {
 		Technique: "explicit-state BFS over directory states under real CLI runs until closure + repeated library/CLI runs over all generated files; idempotence invariants on every transition",
 		Rule: "(1) every 1-/2-field struct file of the 41-variant field menu (C06's menu + 3 annotations that repeat a key) (3-field over a reduced menu) injected 4 times in-process and (a slice) 3 times through the CLI: content after run n+1 = after run n, unannotated files unchanged; " +
 			"(2) for every ordered pair of file variants: breadth-first search from the directory {a.pb.go, b.pb.go, c.txt} over the transitions {-f a, -f b, -d D, -p D/*.go, -p D/a*.go, -f c.txt}, states keyed by the hash of all file bytes, until closure; " +
-			"on every transition: only targeted files change, unannotated / non-Go files never change, a processed file never changes again, the injected content does not depend on the path; states/transitions are measured; non-trivial = graphs with >2 states",
+			"the same graphs from directories holding stale siblings (a.pb.go.tmp, b.pb.go.bak, a.pb.go~, .a.pb.go.swp) left by an interrupted run; on every transition: only targeted files change, no file disappears, unannotated / non-Go files never change, a processed file never changes again, the injected content does not depend on the path; states/transitions are measured; non-trivial = graphs with >2 states",
 		Assumptions: []string{"the CLI binary is built from /repo's working tree at check time", "file menu as in C06"},
 		Run:         run,
 		Pre:         pre,
